@@ -52,7 +52,7 @@ func c16Tree(cfg int) Tree {
 {{ a = [3, 1, 2] }}{{ a.len() }}{{ a.reverse() }}{{ a.slice(1) }}{{ a.contains(2) }}{{ a.append(4).prepend(0) }}{{ a.join("-") }}{{ a.shuffle().len() }}{{ a.rand() > 0 }}
 {{ 5.float() }}{{ (-5).abs() }}{{ 5.str() + "x" }}{{ 123.len() }}{{ 5.decimal(",", 1) }}{{ 2.5.int() }}{{ 2.5.str() }}{{ (-2.5).abs() }}{{ 2.4.ceil() }}{{ 2.6.floor() }}{{ 2.5.round() }}
 {{ true.binary() }}{{ flag.then("y", "n") }}{{ !flag ? 1 : 2 }}{{ {b: 1, a: [1, {c: nil}]}.a[1] }}{{ 7 % 3 }}{{ 1.5 * 2.0 }}{{ 3-- }}{{ 2.5++ }}
-@dump(name, items, {k: 1})@if(flag)A@elseif(name == "Bob<b>")B@else C@end
+@dump(name, items, {k: 1})@dump({a: {b: {c: {d: {e: {f: {g: [1, {h: [2, {i: nil}]}]}}}}}}})@if(flag)A@elseif(name == "Bob<b>")B@else C@end
 ` + c16Chains(),
 	}}
 	if cfg&2 != 0 {
